@@ -11,8 +11,8 @@ TB = ['Coq 8.16.1 kernel; vm_compute for the 326-word sweep and the skeleton lem
       'orderings (RC11-style, no (po U rf) cycles: every write to the queue words is an RMW)',
       'lock-step correspondence (shim + deterministic scheduler + ls_channel) and catch_unwind at the scenario boundary',
       'modelled, not verified: Option::expect panics exactly on None; array indexing panics exactly out of range']
-ASSUME = ['at most k spurious failures of compare_exchange_weak during the solo run (k is a parameter of the bound 5 + k)',
-          'under the view semantics the solo bound is not proved (stale reads add one failed CAS per message beyond the view); no-panic is']
+ASSUME = ['at most k spurious failures of compare_exchange_weak during the solo run (k is a parameter of the bounds 5 + k (SC) and 8 + 2k (view semantics))',
+          'the hardware does not make a weak CAS fail spuriously forever']
 
 
 def run(ctx):
